@@ -38,7 +38,8 @@ BOUNDS = {
              'DATA, end of data, RSET or QUIT; a peer that sends an unsolicited '
              'reply (421 / 250 / 451) behind the EHLO reply of every '
              'connection it accepts, connections taking a symbolic time below '
-             'the connect timeout; pipe relay: the program hangs; '
+             'the connect timeout; pipe relay: the program hangs for one '
+             'recipient (and possibly every later one); '
              'HTTP relay: the server never responds',
     'thorough': 'trickles of 6 bytes, 2 recipients',
 }
@@ -656,12 +657,15 @@ def run_pipe(cell):
     rp.subprocess = Sub
     cls = api.choice('cls', 3)
     hang_at = api.choice('hang_at', 2)
+    # the program may hang for every later recipient as well: ONE timeout
+    # bounds the whole attempt, not each process
+    later_hang = api.choice('later_hang', 2)
     calls = []
 
     def script(args):
         i = len(calls)
         calls.append(args)
-        return 0, b'', b'', (i == hang_at)
+        return 0, b'', b'', (i == hang_at or (later_hang and i > hang_at))
     FakePopen.script = staticmethod(script)
     if cls == 0:
         relay = rp.PipeRelay(['deliver', '{recipient}'], timeout=30)
@@ -680,7 +684,7 @@ def run_pipe(cell):
         done['at'] = qc.now()
     gevent.spawn(go)
     qc.run_until_quiescent()
-    info = dict(cls=cls, hang_at=hang_at)
+    info = dict(cls=cls, hang_at=hang_at, later_hang=later_hang)
     if hang_at >= len(rcpts):
         return
     if not api.prove(len(out) == 1, 'attempt-never-finished', **info):
@@ -691,6 +695,11 @@ def run_pipe(cell):
     if kind == 'value' and isinstance(val, dict):
         api.prove(isinstance(val[rcpts[hang_at]], TransientRelayError),
                   'stall-not-reported-as-transient-failure', **info)
+        for r in rcpts[hang_at + 1:]:
+            # never reached (or hanging too): not delivered
+            api.prove(isinstance(val[r], TransientRelayError),
+                      'unreached-recipient-not-reported-as-transient',
+                      rcpt=r, **info)
     else:
         api.prove(kind == 'relay-error' and
                   isinstance(val, TransientRelayError),
